@@ -350,6 +350,11 @@ def run_plan(ctx, binp, jobs, tag, timeout):
     if "VERIF-RACE-DONE" not in out:
         last = re.findall(r"VERIF-JOB-BEGIN [^\n]*", out)
         fatal = re.findall(r"(?m)^(?:panic:|fatal error:|VERIF-RACE-FATAL)[^\n]*", out)
+        if re.search(r"(?m)^fatal error: concurrent map ", out):
+            # the Go runtime itself caught unsynchronised access to a map (it aborts the process before the
+            # race detector prints its report): that IS a data race; classified by the caller
+            shutil.rmtree(d, ignore_errors=True)
+            return out + "\nVERIF-RUNTIME-MAPRACE %s\n" % tag
         raise vlib.Inconclusive("race harness did not finish (%s, rc=%s; last job: %s; %s):\n%s" % (
             tag, rc, last[-1] if last else "none", "; ".join(fatal[:3]) or "no panic line", out[-1500:]))
     shutil.rmtree(d, ignore_errors=True)
@@ -662,6 +667,35 @@ def run(ctx):
                 replay["tlc_interleaving"] = tr
         ctx.violation(sig, what, replay)
         ctx.sample({"signature": sig, "predicted": bool(pred), "job": [job.get("a"), job.get("b")]})
+    # ---- processes the Go runtime aborted with "concurrent map ..." (unsynchronised map access)
+    root = vlib.REPO.rstrip("/") + "/"
+    for m in re.finditer(r"(?m)^fatal error: (concurrent map [^\n]*)\n", out):
+        before = re.findall(r"VERIF-JOB-BEGIN (\d+) ", out[:m.start()])
+        job = jobmap.get(int(before[-1]), {}) if before else {}
+        blk = out[m.end():m.end() + 6000]
+        g = re.search(r"goroutine \d+ \[running\]:\n((?:.+\n)+)", blk)
+        frame = None
+        if g:
+            ls = g.group(1).splitlines()
+            for k in range(0, len(ls) - 1):
+                loc = ls[k + 1].strip().split(" ")[0]
+                if ls[k + 1].startswith("\t") and loc.startswith(root) and "zz_verif" not in loc:
+                    f, _, l = loc.rpartition(":")
+                    frame = (re.sub(r"\(.*$", "", ls[k].strip()), f[len(root):], l)
+                    break
+        if frame is None:
+            ctx.note("runtime map-race abort without a frame inside the repository (ignored)")
+            continue
+        sig = "runtime-map-race | %s:%s" % (frame[1], _short_fn(frame[0]).rsplit("/", 1)[-1])
+        if sig in seen_sig:
+            continue
+        seen_sig.add(sig)
+        ctx.violation(sig, "the Go runtime aborted the node with '%s' (unsynchronised access to a map, i.e. a data race) in %s "
+                           "(%s:%s) while running %s x %s" % (m.group(1), _short_fn(frame[0]).rsplit("/", 1)[-1], frame[1], frame[2],
+                                                               job.get("a"), job.get("b")),
+                      {"job": {"a": job.get("a"), "b": job.get("b"), "iters": job.get("iters")}, "seed": ctx.seed,
+                       "race_report": "fatal error: " + m.group(1) + "\n" + blk[:3000], "predicted": False})
+        ctx.sample({"signature": sig, "predicted": False, "job": [job.get("a"), job.get("b")]})
     if harness_only:
         ctx.note("%d race reports with a stack entirely outside the repository (ignored)" % harness_only)
         ctx.cov["race_reports_outside_repository"] = harness_only
